@@ -165,7 +165,7 @@ where
 
         let create_vnode_call = Expr::Call(CallExpr {
             span: DUMMY_SP,
-            callee: Callee::Expr(Box::new(Expr::Ident(self.get_pragma()))),
+            callee: Callee::Expr(Box::new(self.get_pragma())),
             args: vnode_call_args,
             ..Default::default()
         });
@@ -242,7 +242,7 @@ where
 
         Expr::Call(CallExpr {
             span: DUMMY_SP,
-            callee: Callee::Expr(Box::new(Expr::Ident(self.get_pragma()))),
+            callee: Callee::Expr(Box::new(self.get_pragma())),
             args: vec![
                 ExprOrSpread {
                     spread: None,
@@ -1088,25 +1088,43 @@ where
         }
     }
 
-    fn get_pragma(&mut self) -> Ident {
-        self.pragma
-            .as_ref()
-            .or(self.options.pragma.as_ref())
-            .map(|name| quote_ident!(name.as_str()).into())
-            .unwrap_or_else(|| self.import_from_vue("createVNode"))
+    fn get_pragma(&mut self) -> Expr {
+        match self.pragma.as_ref().or(self.options.pragma.as_ref()) {
+            Some(name) => {
+                // `h` or a dotted path such as `React.createElement`
+                let mut parts = name.split('.');
+                let first = Expr::Ident(quote_ident!(parts.next().unwrap_or_default()).into());
+                parts.fold(first, |obj, prop| {
+                    Expr::Member(MemberExpr {
+                        span: DUMMY_SP,
+                        obj: Box::new(obj),
+                        prop: MemberProp::Ident(quote_ident!(prop)),
+                    })
+                })
+            }
+            None => Expr::Ident(self.import_from_vue("createVNode")),
+        }
     }
 
     fn search_jsx_pragma(&mut self, span: Span) {
         if let Some(comments) = &self.comments {
             comments.with_leading(span.lo, |comments| {
+                // an annotation is a comment line `@jsx <name>`; `@jsxImportSource`,
+                // `@jsxFrag`, `@jsxRuntime` are different annotations
                 let pragma = comments.iter().find_map(|comment| {
-                    let trimmed = comment.text.trim();
-                    trimmed
-                        .strip_prefix('*')
-                        .unwrap_or(trimmed)
-                        .trim()
-                        .strip_prefix("@jsx")
-                        .map(str::trim)
+                    comment.text.lines().find_map(|line| {
+                        let rest = line
+                            .trim_start()
+                            .trim_start_matches('*')
+                            .trim_start()
+                            .strip_prefix("@jsx")?;
+                        if !rest.starts_with(char::is_whitespace) {
+                            return None;
+                        }
+                        rest.split_whitespace()
+                            .next()
+                            .filter(|name| is_pragma_name(name))
+                    })
                 });
                 if let Some(pragma) = pragma {
                     self.pragma = Some(pragma.to_string());
@@ -1612,6 +1630,14 @@ where
             Expr::Lit(Lit::Str(quote_str!(name.sym.clone()))),
         );
     }
+}
+
+/// An identifier, or identifiers joined by dots.
+fn is_pragma_name(name: &str) -> bool {
+    name.split('.').all(|part| {
+        let mut chars = part.chars();
+        chars.next().is_some_and(Ident::is_valid_start) && chars.all(Ident::is_valid_continue)
+    })
 }
 
 /// `<a.b.c />` refers to the ordinary member expression `a.b.c`.
